@@ -23,7 +23,7 @@ WORKERS = {"quick": 4, "thorough": 16}
 CONTEXTS = ["bare", "params", "photos", "photos+params", "wrapped", "extended-daughters", "extended-params", "space-before-semicolon"]
 REQUIRED = {**{f"context:{c}": 135 for c in CONTEXTS}, "published-name-in-all-contexts": 1, "prefix-pairs-all": 1, "published-after-user-registration": 135,
             "user-name": 200, "user-name:special-char:.": 3, "user-name:special-char:+": 3, "user-name:special-char:*": 3, "user-name:special-char:(": 3,
-            "user-name:ends-in-nonword": 5, "user-name:extends-published": 20, "user-name:prefix-of-published": 20, "registration:several-calls": 20, "user-name:starts-with-a-digit": 10, "model-alias-of-a-registered-model": 10, "registration:published-name-among-the-new-ones": 10, "registration-after-a-refused-parse": 10, "registered-names-second-parse": 20, "grammar-accessed-before-registration": 10, "grammar-accessed-between-registrations": 5, "grammar-accessed-after>=2-registrations-and-before-another": 3, "crlf-text": 10,
+            "user-name:ends-in-nonword": 5, "user-name:extends-published": 20, "user-name:prefix-of-published": 20, "registration:several-calls": 20, "user-names:shorter-then-longer-through-dash": 5, "user-name:starts-with-a-digit": 10, "model-alias-of-a-registered-model": 10, "registration:published-name-among-the-new-ones": 10, "registration-after-a-refused-parse": 10, "registered-names-second-parse": 20, "grammar-accessed-before-registration": 10, "grammar-accessed-between-registrations": 5, "grammar-accessed-after>=2-registrations-and-before-another": 3, "crlf-text": 10,
             "near-miss-rejected": 300, "near-miss:dot-replaced": 3, "near-miss:alias-misspelled": 5, "near-miss:alias-of-an-earlier-file": 5, "near-miss:registered-on-another-instance": 20, "alias-name-extends-model": 20}
 EXHAUSTIVE_NOTE = "all 135 published names x 8 contexts and all ordered prefix pairs are enumerated across the workers in every run"
 ASSUMPTIONS = ["labels next to model names extend them by letters, digits or '_' only (PHSP-x is, by the language's own tokenisation, PHSP with parameter -x)",
@@ -181,7 +181,11 @@ def user_names(rng, models):
     elif k == "extends":
         out = base + rng.choice(["_X", "X", "2", "_NEW", "-v2", "_"])
     elif k == "prefix":
-        out = base[: max(3, len(base) - rng.randint(1, 2))] if len(base) > 3 else base + "Q"
+        dashed = [m for m in models if "-" in m]
+        if dashed and rng.random() < 0.3:
+            out = rng.choice(dashed).split("-")[0]        # the part of a published name in front of its '-' (CB3PI of CB3PI-MPP)
+        else:
+            out = base[: max(3, len(base) - rng.randint(1, 2))] if len(base) > 3 else base + "Q"
     elif k == "dash":
         out = rng.choice(["MY-MODEL", "A-B-C", "NEW-" + base, base + "-MOD"])
     elif k == "digit-first":
@@ -236,6 +240,12 @@ def run(ctx):
             names_k.append((u, kind))
         if not names_k:
             continue
+        if rng.random() < 0.15:
+            # a registered pair, the shorter name first, the longer one continuing it through '-'
+            stem = "MYGEN" + rng.choice(["", "A", "_2"])
+            if not any(x[0] in (stem, stem + "-V2") for x in names_k):
+                names_k = [(stem, "random"), (stem + "-V2", "dash"), *names_k]
+                ctx.hit("user-names:shorter-then-longer-through-dash")
         um = [u for u, _ in names_k]
         allm = models + um
         if not all(L.label_ok(d, allm) for d in DAUGHTERS + ["B0", "x", "beta", "w"]):
